@@ -22,7 +22,10 @@ nni_msg_alloc(nni_msg **mp, size_t sz)
 	ASSUME(sz <= ENV_MSG_CAP);
 	m = malloc(sizeof(*m));
 	ASSUME(m != NULL);
-	memset(m, 0, sizeof(*m));
+	{
+		static const struct nng_msg zero;
+		*m = zero; /* struct assignment: keeps the fields constant for symex (memset does not) */
+	}
 	m->off    = ENV_MSG_HEADROOM;
 	m->len    = sz;
 	m->refcnt = 1;
